@@ -118,6 +118,32 @@ def gen_module(d):
     C.write_module(d, files, modname="vmod")
 
 
+PY_MAIN = '''package main
+
+import "github.com/goplus/lib/py"
+
+func main() {
+	l := py.List(int8(3), uint8(4), int16(5), uint16(6), int32(7), uint32(8))
+	println("pylen", l.ListLen())
+}
+'''
+
+
+def gen_py_module(d):
+    """a second, unrelated program (calls Python): whatever it compiles under a key the module's build also uses must be
+    the same code.  Returns False when the Python binding module is not available offline."""
+    want = "github.com/goplus/lib v0.3.1"
+    try:
+        lines = [ln for ln in open(os.path.join(C.REPO, "go.sum")) if ln.startswith(want + " ") or ln.startswith(want + "/go.mod ")]
+    except OSError:
+        lines = []
+    if len(lines) < 2 or subprocess.run(["pkg-config", "--libs", "python3-embed"], capture_output=True).returncode != 0:
+        return False
+    C.write_module(d, {"go.mod": "module c13py\n\ngo 1.24\n\nrequire github.com/goplus/lib v0.3.1\n",
+                       "go.sum": "".join(lines), "main.go": PY_MAIN}, modname="c13py")
+    return True
+
+
 def apply_change(moddir, kind, inp, newver):
     """edit: ordinary rewrite (mtime moves forward); keep: rewrite of equal length with the old mtime restored;
     touch: only the mtime moves"""
@@ -306,9 +332,14 @@ def cache_files(cache):
     return out
 
 
-def compare_caches(a, b):
-    """Repro: same entries, same manifests, same object code. -> (list of (package, what), stats)"""
+def compare_caches(a, b, common_only=False):
+    """Repro: same entries, same manifests, same object code. -> (list of (package, what), stats)
+    common_only: the caches come from different programs; only entries stored under the same key in both are compared"""
     fa, fb = cache_files(a), cache_files(b)
+    if common_only:
+        both = set(fa) & set(fb)
+        fa = {k: v for k, v in fa.items() if k in both}
+        fb = {k: v for k, v in fb.items() if k in both}
     diffs = []
     stats = {"archives": 0, "archives_raw_identical": 0, "manifests": 0, "bytes": 0}
 
@@ -677,6 +708,16 @@ def check(chk):
     if thorough:
         for g in ("tags", "opt"):
             futs[g + "2"] = pool.submit(warm, g + "2", dict(zero, **{g: 1}), "cli")
+    pymod = os.path.join(rd, "pymod")
+    have_py = gen_py_module(pymod)
+
+    def warm_py():
+        cache = os.path.join(rd, "warm-PY")
+        os.makedirs(cache, exist_ok=True)
+        do_build(ctx, pymod, cache, os.path.join(rd, "tmp-PY"), os.path.join(rd, "out-PY"), zero, "cli", timeout=2400)
+        return cache
+    if have_py:
+        futs["PY"] = pool.submit(warm_py)
 
     # ---- TLC: the law is consistent, what layer B predicts, the histories
     fut_model = pool.submit(model_checks, ctx, thorough, tlc_results)
@@ -727,6 +768,23 @@ def check(chk):
                        {"package": pkg, "difference": what, "config": a,
                         "how": "generated module built twice with `llgo build` into two empty caches"})
         chk.cov["evaluations"] += stats["archives"] + stats["manifests"]
+    # one key, one code - also across programs: what the Python-calling program stored under keys the module's build uses
+    if have_py:
+        diffs, stats = compare_caches(caches["A"], caches["PY"], common_only=True)
+        stats["pair"] = "A/PY (common keys)"
+        repro_stats.append(stats)
+        if stats["archives"] < 8:
+            raise C.Undecided("cross-program comparison: only %d common cache entries" % stats["archives"])
+        for pkg, what in diffs:
+            chk.reject("samekey:%s" % pkg, "package %s was stored under the same cache key with different code by a build of "
+                       "another program (one that calls Python): %s" % (pkg, what),
+                       {"package": pkg, "difference": what,
+                        "how": "`llgo build -O0` of the generated module into an empty cache, and of a program calling "
+                               "py.List(int8, uint8, ...) into another empty cache; archives with equal fingerprints compared",
+                        "python_program": PY_MAIN})
+        chk.cov["evaluations"] += stats["archives"] + stats["manifests"]
+    else:
+        chk.assumptions.append("cross-program same-key comparison skipped: github.com/goplus/lib or python3-embed not available")
     # negative control for the Repro comparison: one object byte flipped in a copy of cache A must be noticed
     neg = os.path.join(rd, "warm-neg")
     shutil.copytree(caches["A"], neg)
